@@ -1,4 +1,4 @@
-// _syncLPRational copies the SCALED storage of the floating-point LP (persistent scaling, default) into the rational LP.
+// regression driver: before the repair _syncLPRational copied the SCALED storage of the floating-point LP (persistent scaling) into the rational LP; exit 0 on the fixed tree.
 // build: g++ -std=c++14 -DNDEBUG -I/repo/src -I/repo/_build native_sync_scaled.cpp /repo/_build/lib/libsoplex.a -lgmp -lmpfr -lz -ltbb   (exit 1 = deviation shown;
 // without -DNDEBUG the run aborts on assert(old.lp_scaler == nullptr), spxlpbase.h:2919)
 #include "soplex.h"
